@@ -1,8 +1,8 @@
 CONFIG = dict(
     props=["DhcpProofs.Props.C06"],
     facts=["DhcpProofs.Facts.V4Codec"],
-    streams=[("v4fix", 8000, 60000), ("v6fix", 8000, 60000), ("v4dec", 3000, 20000)],
-    oracles=[("c06", 8000, 60000)],
+    streams=[("v4fix", 8000, 300000), ("v6fix", 8000, 300000), ("v4dec", 3000, 100000)],
+    oracles=[("c06", 8000, 300000)],
     full_statement_proved=False,
     missing="DHCPv4: proved in full. DHCPv6: the unconditional statement is FALSE of model and code (C06_v6_counterexample: an embedded DHCPv4 message whose 64-byte sname has no NUL is cut on re-encoding - a listed normalisation; C06_v6_length_needed: an option value that grows past 65535 octets on re-encoding wraps its length field - known finding v6-fixpoint-length-overflow). Proved: the fixpoint up to the name-capacity cut for every accepted input whose options containing an embedded DHCPv4 message still fit 16 bits after re-encoding (C06_v6_normalised), exactly when the embedded names have a NUL (C06_v6_fixpoint), and unconditionally for messages without option 87 (C06_v6_no_dhcpv4)",
     rule="v4fix: accepted-but-non-canonical inputs (unsorted, split, padded, repeated codes, names filling their fields, hlen > 16) and every malformed class, taken through FromBytes -> ToBytes -> FromBytes -> ToBytes in Go and in the model, both byte strings compared. oracle c06: b1 decodes, b2 == b1, and the independent RFC reading of b1 equals that of b up to the name-capacity cut. non-trivial = accepted input; distinct = distinct inputs",
